@@ -65,6 +65,22 @@ theorem Tab.get_set_other {α} (t : Tab α) (i j : Nat) (v : α) (h : j ≠ i) :
     (t.set i v).get j = t.get j := by
   simp [Tab.get_set, h]
 
+/-- writing twice to one index: the second write wins (also structurally) -/
+theorem Tab.set_set_same {α} (t : Tab α) (i : Nat) (a b : α) : (t.set i a).set i b = t.set i b := by
+  unfold Tab.set
+  by_cases h : i < t.arr.size
+  · simp [h]
+  · have h2 : t.arr.size + (i - t.arr.size) = i := by omega
+    simp only [h, if_false, Array.size_push, Array.size_append, Array.size_replicate, h2, Nat.lt_succ_self, if_true]
+    congr 1
+    apply Array.ext_getElem?
+    intro j
+    simp only [Array.getElem?_setIfInBounds, Array.getElem?_push, Array.size_push, Array.size_append, Array.size_replicate, h2]
+    by_cases hj : i = j
+    · subst hj; simp
+    · have : ¬ j = i := fun e => hj e.symm
+      simp [hj, this]
+
 /-- association list with most recent binding first: the `slots` vectors of all methods -/
 def alGet {κ ν} [DecidableEq κ] (l : List (κ × ν)) (d : ν) (k : κ) : ν :=
   match l with
